@@ -942,8 +942,20 @@ def merge_triple(gen, cls=None, minor=None, plain_eol=False):
         c["source"] = "\n".join(gen.line(CODE_LINES) for _ in range(4)) + "\n"
         pos = r.randrange(len(base["cells"]) + 1)
         lc, rc = copy.deepcopy(c), copy.deepcopy(c)
-        how = r.choice(["similar", "dissimilar", "dissimilar", "identical"])
-        if how == "similar":
+        how = r.choice(["similar", "dissimilar", "dissimilar", "identical", "retyped"])
+        if how == "retyped":
+            # ... and one branch changed the cell's TYPE on the way (a code cell turned into markdown or raw, or back):
+            # same id, same position, different cell types
+            other = gen.cell(m, r.choice([t for t in ("code", "markdown", "raw") if t != c["cell_type"]]))
+            other["source"] = c["source"] if r.random() < 0.6 else other["source"]
+            if "id" in c:
+                other["id"] = c["id"]
+            else:
+                other.pop("id", None)
+            rc = other
+            if r.random() < 0.5:
+                lc, rc = rc, lc
+        elif how == "similar":
             lc["source"] += "# local note\n"
             rc["source"] = rc["source"].replace("\n", "  # r\n", 1)
         elif how == "dissimilar":
